@@ -13,7 +13,9 @@
      line     two FIFO queues of frames; the head of either can be delivered, dropped, duplicated
               (LHDup / LNDup put a second copy behind the head: "deliver and keep" is Dup then
               Deliver, and any number of copies is possible) or detectably corrupted (the reader
-              sees garbage: the host answers CANCEL + NAK, the NCP answers NAK);
+              sees garbage: the host answers CANCEL + NAK, the NCP answers NAK); the host may
+              also get the first n frames of its queue in one read (LHRead n: host_step's
+              Frames event with n frames, applied back to back before any coroutine resumes);
      stall    LTick, the host's acknowledgement timeout;
      callers  LSubmit id p, LCancel id, and LWaitTo t for the passage of time.
    Everything the host writes joins the host->NCP queue in order.  Labels that are not enabled are
@@ -23,7 +25,8 @@
    it stops transmitting and later sends fail at once).
 
    One epoch: nobody resets, and a conforming NCP emits no RST / RSTACK / ERROR inside an epoch.
-   The host reads one frame per event (Frames [f]).
+   host_step has no event for an unparsable frame, so a corrupted frame is an event of its own
+   (LHCorrupt) and cannot sit in the middle of one LHRead.
 
    Vocabulary (model/AshLink.v):
      hups s            payloads the host handed up (HUp outputs), in order
@@ -103,11 +106,11 @@ Proof. exact cancelled_labels. Qed.
 
 (* ==== non-vacuity ================================================================================== *)
 (* one exchange in each direction, with faults: the host's first transmission is lost, the timeout
-   fires, the retransmission arrives twice; the NCP's acknowledgement arrives twice; the NCP's own
+   fires, the retransmission arrives twice; the NCP's acknowledgement arrives twice, in one read; the NCP's own
    DATA frame is corrupted on the line (the host NAKs), is retransmitted, and is acknowledged *)
 Definition ex_round (i : nat) : list label :=
   [LSubmit (N.of_nat i) [N.of_nat i]; LNDrop; LTick; LNDup; LNDeliver; LNDeliver;
-   LNAck; LHDup; LHDeliver; LHDeliver;
+   LNAck; LHDup; LHRead 2;
    LNSubmit [N.of_nat (100 + i)]; LNData i false; LHCorrupt; LNDeliver; LNData i true; LHDeliver; LNDeliver].
 (* twelve rounds: the 3-bit numbers wrap in both directions *)
 Definition ex_run : list label := flat_map ex_round (seq 0 12).
@@ -174,3 +177,17 @@ Example c01_cancel_noop_ex :
   /\ completions (htrace (link_run 3 ex_run)) = map (fun i => (N.of_nat i, OOk)) (seq 0 12)
   /\ nups (link_run 3 ex_cancel) = map (fun i => [N.of_nat i]) (seq 0 12).
 Proof. vm_compute. repeat split. Qed.
+
+(* the bound on the window is needed: with a window of 8 the 3-bit numbers are ambiguous.  Eight
+   frames are accepted, their acknowledgements are still on their way, the NCP repeats frame 0
+   and the host takes it for frame 8 *)
+Definition ex_w8 : list label :=
+  map (fun i => LNSubmit [N.of_nat i]) (seq 0 9) ++ map (fun i => LNData i false) (seq 0 8)
+  ++ repeat LHDeliver 8 ++ [LNData 0 true; LHDeliver].
+
+Example c01_window_bound_needed :
+  hups (link_run 8 ex_w8) = map (fun i => [N.of_nat i]) (seq 0 8) ++ [[0%N]]
+  /\ ~ prefix_of (hups (link_run 8 ex_w8)) (n_sub (ns (link_run 8 ex_w8))).
+Proof.
+  split; [vm_compute; reflexivity|]. intros [rest H]. vm_compute in H. discriminate H.
+Qed.
